@@ -49,9 +49,12 @@ Trees == {
 RECURSIVE Ids(_)
 Ids(n) == {n.id} \cup UNION { UNION { Ids(n.fields[i].kids[j]) : j \in 1..Len(n.fields[i].kids) } : i \in 1..Len(n.fields) }
 Rep(k) == [id |-> 900000 + k, kind |-> "name", fields |-> <<>>]
-Points(t) == {[ph |-> ph, id |-> i, d |-> d] : ph \in {"enter", "leave"}, i \in Ids(t), d \in {"skip", "break", "remove", "replace"}}
+\* a replacement of another kind with children of its own: the field  REPLa: REPLn
+RepF(k) == Fld(900000 + 100 * k, 900000 + 100 * k + 1, 900000 + 100 * k + 2, <<>>)
+Points(t) == {[ph |-> ph, id |-> i, d |-> d] : ph \in {"enter", "leave"}, i \in Ids(t), d \in {"skip", "break", "remove", "replace", "replacef"}}
                 \ {[ph |-> "leave", id |-> i, d |-> "skip"] : i \in Ids(t)}          \* SKIP from leave is not part of the contract
-Mk(pt, k) == [ph |-> pt.ph, id |-> pt.id, d |-> pt.d, rep |-> IF pt.d = "replace" THEN Rep(k) ELSE NoRep]
+Mk(pt, k) == [ph |-> pt.ph, id |-> pt.id, d |-> IF pt.d = "replacef" THEN "replace" ELSE pt.d,
+              rep |-> IF pt.d = "replace" THEN Rep(k) ELSE IF pt.d = "replacef" THEN RepF(k) ELSE NoRep]
 
 VARIABLES tree, prog
 Init == /\ tree \in Trees
